@@ -17,6 +17,7 @@ buffers hold three packets, so the back-pressure behaviour examined by C13 does 
 import hashlib
 
 from dsim.kernel import Violations
+from models.usb2_wire import gen_idle_data
 from models.usb2 import UTMIHost, token_packet, parse_data
 from models import streams_usb2 as su
 from engines.usb2_device import device_bench, IDLE_INIT
@@ -128,6 +129,7 @@ def gen(rng, tier, index):
            "turn": bit * rng.choice([2, 2, 3, 6]), "tok_gap": bit * rng.choice([2, 3]),
            "txready": rng.choice(["always", "always", ["every", 2], ["every", 3]]),
            "streams": streams, "queues": queues, "signal": signal}
+    cfg["idle_data"] = gen_idle_data(rng)
     return {"engine": ENGINE, "config": cfg, "ops": ops}
 
 
@@ -286,7 +288,7 @@ def run(scn):
         yield from h.idle(max(a, b) + 30)
 
     txr = cfg["txready"] if cfg["txready"] == "always" else tuple(cfg["txready"])
-    host = UTMIHost(script, byte_period=cfg["byte_period"], pre=cfg["pre"], post=cfg["post"], txready=txr)
+    host = UTMIHost(script, idle_data=cfg.get("idle_data"), byte_period=cfg["byte_period"], pre=cfg["pre"], post=cfg["post"], txready=txr)
     stall = 1 if txr == "always" else 3
     big = max(a, b)
     per_txn = (big + 14) * (cfg["byte_period"] + stall) + 2 * ctx.timeout + 4 * ctx.turn + ctx.tok_gap + big + 60
